@@ -142,7 +142,7 @@ GEN_FAMILIES = [
     # (name, overrides, L quick, L thorough): every sequence over the family's alphabet up to L
     ("full", {"Timeouts": "{0, 1, 999}", "MaxAdvance": 2, "MaxNotify": 2}, 5, 6),
     # at L = 5 the two sub-alphabets would be (nearly) subsets of `full`: thorough tier only (quick L = 0 = skipped)
-    ("untimed", {"Timeouts": "{999}", "MaxAdvance": 1, "MaxNotify": 3}, 0, 7),
+    ("untimed", {"Timeouts": "{999}", "MaxAdvance": 1, "MaxNotify": 3}, 0, 6),
     ("timed", {"Timeouts": "{1, 2}", "MaxAdvance": 2, "MaxNotify": 1}, 0, 6),
 ]
 
@@ -217,12 +217,12 @@ def run(ctx):
     ctx.cov["exhaustive"] = True
     t0 = _timed(ctx, "s2c-enum", t0)
     # long seeded walks through larger constants
-    sync_paths.sim_replay(ctx, "Gen_CondEvent", "Sim_CondEvent.cfg", num=ctx.pick(100, 2000), depth=ctx.pick(30, 40),
+    sync_paths.sim_replay(ctx, "Gen_CondEvent", "Sim_CondEvent.cfg", num=ctx.pick(100, 1000), depth=ctx.pick(30, 40),
                           overrides={"NW": NW_SIM, "Timeouts": "{0, 1, 2, 3, 999}", "MaxAdvance": 3, "MaxNotify": 4},
                           replayer=replayer_sim)
     t0 = _timed(ctx, "s2c-sim", t0)
     # 3. code -> spec: random recorded runs validated by TLC
-    c2s(ctx, ctx.pick(96, 4000))
+    c2s(ctx, ctx.pick(96, 2000))
     t0 = _timed(ctx, "c2s", t0)
     ctx.cov["rule"] = ("paths: " + "; ".join(rule) + "; per object kind (Condition, Event); plus seeded TLC simulation "
                        "walks (depth 40, 20 waiters) and random recorded runs; distinct = distinct (config, operation "
